@@ -236,8 +236,8 @@ example : weqEval cyc ['r', '2'] (.ref ['r', '0'] none) ((viewIds cyc).length + 
 example : weqEval cyc ['x'] (.ref ['r', '0'] none) 2 = .diverge := by decide
 
 def cycRecs : List Rec :=
-  [ { id := some ['r', '0'], entries := [{ ref := some ['r', '1'], rel := .sym true, recip := .absent }] },
-    { id := some ['r', '1'], entries := [{ ref := some ['r', '0'], rel := .sym true, recip := .absent }] } ]
+  [ { key := some ['r', '0'], id := some ['r', '0'], entries := [{ ref := some ['r', '1'], rel := .sym true, recip := .absent }] },
+    { key := some ['r', '1'], id := none, entries := [{ ref := some ['r', '0'], rel := .sym true, recip := .absent }] } ]
 
 example : hasRelationship cycRecs true true false (some ['x']) cycRecs.head! ((recIds cycRecs).length + 1) = .ok false := by
   decide
